@@ -39,7 +39,8 @@ def descr(v):
     if isinstance(v, types.ModuleType): return ["module", v.__name__]
     if inspect.isclass(v) or inspect.isfunction(v): return ["obj", getattr(v, "__module__", "?"), getattr(v, "__qualname__", "?")]
     if isinstance(v, (str, int, float, bool, type(None))): return ["const", repr(v)]
-    return ["other", type(v).__name__]
+    r = repr(v)
+    return ["other", type(v).__name__, r if " at 0x" not in r and len(r) < 300 else ""]
 mods = {}
 ids = {}
 for name, mod in sorted(sys.modules.items()):
